@@ -7,7 +7,7 @@ From Coq Require Import NArith ZArith List Bool.
 From ZV.Gen Require Import Gen_C14.
 From ZV.Mem Require Import Cwksp CwkspProofs Estimate EstimateProofs LevelDefs LevelProofs DBuffers DBuffersProofs C14Final
                           History HistoryProofs HistoryLevels CParamsProofs NegLevelProofs
-                          DOwner DOwnerProofs CDictLevel C14Round2.
+                          DOwner DOwnerProofs CDictLevel C14Round2 MtOwner MtOwnerProofs.
 Import ListNotations.
 Local Open Scope N_scope.
 
@@ -468,3 +468,74 @@ Theorem advanced_raw_cparams_refuted :
     <= estimateCCtxSize_usingCParams 0 raw_witness_cp.
 Proof. exact advanced_raw_cparams_refuted_l. Qed.
 Print Assumptions advanced_raw_cparams_refuted.
+
+(* ---------- round 3: what a multithreaded compression context owns / reports, allocation failures included ---------- *)
+(* Models: Mem/MtOwner.v (lib/compress/zstdmt_compress.c + lib/common/pool.c).  [z] = the structure sizes of the build:
+   universally quantified.  A failure schedule (list bool) decides which allocations return NULL. *)
+
+(* for EVERY history of a multithreaded context - creation, session starts that change the worker count with ANY
+   allocation failing, local dictionaries, round buffer, serial LDM tables (growing, failing), job output buffers taken
+   and flushed in any order, sequence buffers, worker contexts of any workspace size - the bytes outstanding at the
+   allocator are EXACTLY what the current ZSTDMT_sizeof_CCtx reports: it never under-reports and is defined in every
+   reachable state (NULL pools included) *)
+Theorem mt_sizeof_exact :
+  forall z n fs0 s0 e0 f0 ops s outs,
+    mt_create z n fs0 = (Some s0, e0, f0) ->
+    mt_run z s0 ops = (s, outs) ->
+    live_after 0 (e0 ++ mt_all_events outs) = mt_sizeof z s.
+Proof. exact mt_sizeof_exact_l. Qed.
+Print Assumptions mt_sizeof_exact.
+
+(* a creation that fails (any allocation of its 12) returns NULL and leaves nothing at the allocator *)
+Theorem mt_create_failed_leaves_nothing :
+  forall z n fs e f X, mt_create z n fs = (None, e, f) -> live_after X e = X.
+Proof. exact mt_create_failed_l. Qed.
+Print Assumptions mt_create_failed_leaves_nothing.
+
+(* the expression used before fix eb053f6 is exact WHERE it is defined ... *)
+Theorem mt_sizeof_old_exact_where_defined :
+  forall z n fs0 s0 e0 f0 ops s outs v,
+    mt_create z n fs0 = (Some s0, e0, f0) -> mt_run z s0 ops = (s, outs) ->
+    mt_sizeof_old z s = Some v -> v = live_after 0 (e0 ++ mt_all_events outs).
+Proof. exact mt_sizeof_old_exact_l. Qed.
+Print Assumptions mt_sizeof_old_exact_where_defined.
+
+(* ... and UNDEFINED (NULL pool / NULL jobs table dereferenced: finding C14-sizeof-cctx-after-failed-mt-resize) after
+   EVERY ZSTDMT_resize that fails beyond the thread-handle array, from any state, for any worker count and schedule *)
+Theorem mt_sizeof_old_undefined_after_failed_resize :
+  forall z s n fs th eT fsT s' e fs',
+    resize_threads z (mt_threads s) n fs = (true, th, eT, fsT) ->
+    mt_resize z s n fs = (s', false, e, fs') ->
+    mt_sizeof_old z s' = None.
+Proof. exact mt_sizeof_old_undefined_l. Qed.
+Print Assumptions mt_sizeof_old_undefined_after_failed_resize.
+
+(* a resize without allocation failure repairs ANY state: worker count recorded, jobs table of at least n + 2 entries,
+   the three pools present with at least 2n + 3 / n / n slots *)
+Theorem mt_resize_recovers :
+  forall z s n s' ok e fs',
+    mt_resize z s n [] = (s', ok, e, fs') ->
+    ok = true /\ mt_nbw s' = n /\ mt_sizeof_old z s' <> None
+    /\ (exists j b c q, mt_jobs s' = Some j /\ n + 2 <= j /\ mt_buf s' = Some b /\ 2 * n + 3 <= p_total b
+                        /\ mt_cctx s' = Some c /\ n <= p_total c /\ mt_seq s' = Some q /\ n <= p_total q).
+Proof. exact mt_resize_recovers_l. Qed.
+Print Assumptions mt_resize_recovers.
+
+(* the session that follows a failed resize repairs the context whatever worker count it asks for (the failed resize
+   recorded nbWorkers = 0: fixes 3a42f3b / 44900dc are part of the model) *)
+Theorem mt_next_session_recovers :
+  forall z s n fs s1 e fs' m,
+    mt_inflight s = [] ->
+    mt_resize z s n fs = (s1, false, e, fs') ->
+    m <> 0 ->
+    exists s2 e2, mt_step z s1 (MStart m []) = (s2, MOk, e2) /\ mt_nbw s2 = m /\ mt_sizeof_old z s2 <> None.
+Proof. exact mt_next_session_recovers_l. Qed.
+Print Assumptions mt_next_session_recovers.
+
+(* ZSTDMT_freeCCtx after any history (failed resizes, buffers in flight included) leaves nothing at the allocator *)
+Theorem mt_free_releases_all :
+  forall z n fs0 s0 e0 f0 ops s outs,
+    mt_create z n fs0 = (Some s0, e0, f0) -> mt_run z s0 ops = (s, outs) ->
+    live_after 0 (e0 ++ mt_all_events outs ++ mt_free_events z s) = 0.
+Proof. exact mt_free_releases_all_l. Qed.
+Print Assumptions mt_free_releases_all.
